@@ -14,7 +14,7 @@ func init() {
 	reg("github.com/tidwall/sjson.SetBytes", func(fr *frame, args []Value) Value {
 		e := fr.e
 		e.stubSeq++
-		if !e.branch(e.freshVar(fmt.Sprintf("sjson%d.ok", e.stubSeq), 0)) {
+		if !e.codecNoFaults && !e.branch(e.freshVar(fmt.Sprintf("sjson%d.ok", e.stubSeq), 0)) {
 			return Tuple{Slice{}, e.newErrorString(e.strConst("sjson: set failed (stub)"))}
 		}
 		return Tuple{args[0], Iface{}}
